@@ -25,10 +25,14 @@ import sys
 import time
 
 HERE = os.path.dirname(os.path.abspath(__file__))
-HARNESS = os.path.join(HERE, "harness")
-REPO = "/repo"
-EVID = os.path.join(HERE, "evidence")
-REPLAYS = os.path.join(HERE, "replays")
+# VERIF_REPO / VERIF_HARNESS / VERIF_OUT redirect a run to a scratch copy (used
+# only by mutate.py, which tests the monitors against seeded changes without
+# touching /repo or the committed evidence); the registered commands never set them.
+HARNESS = os.environ.get("VERIF_HARNESS") or os.path.join(HERE, "harness")
+REPO = os.environ.get("VERIF_REPO") or "/repo"
+OUT = os.environ.get("VERIF_OUT") or HERE
+EVID = os.path.join(OUT, "evidence")
+REPLAYS = os.path.join(OUT, "replays")
 WORKSPACE_CRATES = ["star-sharks", "adss", "sta-rs", "ppoprf", "star-wasm", "star-test-utils", "mon"]
 
 sys.path.insert(0, HERE)
@@ -137,8 +141,8 @@ def load_known():
 
 
 def run_mon(binary, prop, tier, seed, stage, timeout, extra_args=(), env_extra=None, wrapper=()):
-    os.makedirs(os.path.join(HERE, ".scratch"), exist_ok=True)
-    out = os.path.join(HERE, ".scratch", "%s-%s-%s-%d.json" % (prop, tier, stage, os.getpid()))
+    os.makedirs(os.path.join(OUT, ".scratch"), exist_ok=True)
+    out = os.path.join(OUT, ".scratch", "%s-%s-%s-%d.json" % (prop, tier, stage, os.getpid()))
     if os.path.exists(out):
         os.remove(out)
     cmd = list(wrapper) + [binary, prop, "--tier", tier, "--seed", str(seed), "--stage", stage, "--out", out] + list(extra_args)
